@@ -634,6 +634,11 @@ class TaskScenario(ScenarioData):
                 self.isRunAway = True
                 return False
 
+        # A task that is completed by its very first booking leaves the loop before the
+        # first booked slot is recorded
+        if not forward and first_booked_slot is None and self.doneEffort > previous_effort:
+            first_booked_slot = self.currentSlotIdx
+
         # Set start/end dates based on scheduling direction
         if forward:
             # For forward scheduling: start is at the beginning, end is at current position
